@@ -1,13 +1,18 @@
 ----------------------------- MODULE SlipSystemsGen -----------------------------
-EXTENDS SlipSystems, TLC, Json, IOUtils, SequencesExt
+EXTENDS SlipSystems, SlipSystemsHCP, TLC, Json, IOUtils, SequencesExt
 Thorough == IOEnv.TIER = "thorough"
 R == IF Thorough THEN -3..3 ELSE -2..2
 Vecs == {v \in {<<a, b, c>> : a \in R, b \in R, c \in R} : v # <<0, 0, 0>>}
 \* one representative per family: b sign-normalised with non-increasing absolute values is enough to bound the count
 Fams == {<<b, n>> \in Vecs \X Vecs : Dot(b, n) = 0 /\ Canon(b) = b /\ Canon(n) = n /\ AbsV(b[1]) >= AbsV(b[2]) /\ AbsV(b[2]) >= AbsV(b[3])}
+\* HCP: Miller-Bravais indices (in-plane indices summing to zero), one representative per sign class
+R4 == IF Thorough THEN -3..3 ELSE -2..2
+Vecs4 == {v \in {<<a, b, -(a + b), c>> : a \in R4, b \in R4, c \in R4} : Valid4(v) /\ v[3] \in R4}
+Fams4 == {<<b, n>> \in Vecs4 \X Vecs4 : Dot4(b, n) = 0 /\ Canon4(b) = b /\ Canon4(n) = n /\ Gcd4(b) = 1 /\ Gcd4(n) = 1}
 Cases == {[structure |-> s, b |-> f[1], n |-> f[2]] : s \in {"Cubic", "BCC", "FCC"}, f \in Fams}
+         \cup {[structure |-> "HCP", b |-> f[1], n |-> f[2]] : f \in Fams4}
 Number(S) == LET s == SetToSeq(S) IN [i \in 1..Len(s) |-> [id |-> i] @@ s[i]]
-ASSUME Theorems
+ASSUME Theorems /\ TheoremsHCP
 ASSUME ndJsonSerialize(IOEnv.OUT, Number(Cases))
 ASSUME PrintT(<<"GEN", Cardinality(Cases)>>)
 =============================================================================
